@@ -18,6 +18,7 @@ mod rng;
 mod genmeta;
 mod scen_c13;
 mod scen_c14;
+mod scen_c16;
 mod scen_c17;
 mod scen_rd;
 mod scen_wr;
@@ -39,6 +40,8 @@ pub fn lookup(scen: &str) -> Option<Scenario> {
     Some(match scen {
         "rt" => scen_rt::run,
         "c13" => scen_c13::run,
+        "c16" => scen_c16::run,
+        "c16sweep" => scen_c16::run_sweeps,
         "c08" => scen_wr::run_c08,
         "c15" => scen_wr::run_c15,
         "c07" => scen_rd::run_c07,
